@@ -642,3 +642,69 @@ Proof.
   - rewrite <- E, split_on_join by (auto; discriminate).
     destruct (env_pairs_read_back must (p :: l) H) as [-> ->]. reflexivity.
 Qed.
+
+(** * Schema URL of a detector fold *)
+Lemma merge_schema_step a b :
+  (oschema (fst (merge a b)), conflict_of (snd (merge a b))) = schema_step (oschema a, false) (oschema b).
+Proof.
+  unfold schema_step. destruct a as [ra|], b as [rb|]; cbn [oschema merge fst snd conflict_of C19.Spec.is_empty].
+  - change (C19.Spec.is_empty (r_schema ra)) with (C19.Model.is_empty (r_schema ra)).
+    change (C19.Spec.is_empty (r_schema rb)) with (C19.Model.is_empty (r_schema rb)).
+    destruct (C19.Model.is_empty (r_schema ra)); [reflexivity|].
+    destruct (C19.Model.is_empty (r_schema rb)); [reflexivity|].
+    destruct (bytes_eqb (r_schema ra) (r_schema rb)); reflexivity.
+  - destruct (C19.Spec.is_empty (r_schema ra)) eqn:E; [|reflexivity]. apply spec_is_empty in E. now rewrite E.
+  - reflexivity.
+  - reflexivity.
+Qed.
+
+Lemma schema_step_flag sa c sb :
+  schema_step (sa, c) sb = (fst (schema_step (sa, false) sb), c || snd (schema_step (sa, false) sb)).
+Proof.
+  unfold schema_step. destruct (C19.Spec.is_empty sa); [now rewrite orb_false_r|].
+  destruct (C19.Spec.is_empty sb); [now rewrite orb_false_r|].
+  destruct (bytes_eqb sa sb); cbn; [now rewrite orb_false_r | now rewrite orb_true_r].
+Qed.
+
+Lemma detect_loop_schema ds : forall cur i c0, wf_res cur -> Forall (fun d => wf_ores (d_res d)) ds ->
+  (r_schema (fst (detect_loop cur ds i)), c0 || existsb is_conflict (snd (detect_loop cur ds i))) =
+  fold_left schema_step (map (fun d => oschema (d_res d)) (filter accepted ds)) (r_schema cur, c0).
+Proof.
+  induction ds as [|d r IH]; intros cur i c0 Hc Hds; [cbn; now rewrite orb_false_r|].
+  inversion Hds as [|? ? Hd Hr]; subst. cbn [detect_loop filter]. unfold accepted.
+  destruct (d_absent d); cbn [negb andb]; [now apply IH|].
+  assert (Step : forall e, e <> DOther -> d_err d = e ->
+    (r_schema (fst (let '(m, me) := merge (Some cur) (d_res d) in
+       let cur' := match m with Some x => x | None => cur end in
+       let '(out, es) := detect_loop cur' r (i + 1) in
+       (out, match e with DNil => [] | _ => [EDet i] end ++ match me with MConflict => [EConflict] | MOk => [] end ++ es))),
+     c0 || existsb is_conflict (snd (let '(m, me) := merge (Some cur) (d_res d) in
+       let cur' := match m with Some x => x | None => cur end in
+       let '(out, es) := detect_loop cur' r (i + 1) in
+       (out, match e with DNil => [] | _ => [EDet i] end ++ match me with MConflict => [EConflict] | MOk => [] end ++ es)))) =
+    fold_left schema_step (map (fun d => oschema (d_res d)) (filter accepted r)) (schema_step (r_schema cur, c0) (oschema (d_res d)))).
+  { intros e He _. pose proof (merge_schema_step (Some cur) (d_res d)) as MS.
+    pose proof (merge_wf (Some cur) (d_res d) Hc Hd) as [Wm Nm].
+    destruct (merge (Some cur) (d_res d)) as [m me]. cbn [fst snd oschema] in *.
+    destruct m as [x|]; [|congruence].
+    specialize (IH x (i + 1) (c0 || conflict_of me) Wm Hr).
+    destruct (detect_loop x r (i + 1)) as [out es]. cbn [fst snd] in *.
+    rewrite schema_step_flag, <- MS. cbn [fst snd oschema]. rewrite <- IH. f_equal.
+    rewrite !existsb_app. destruct e; try congruence; destruct me; cbn; now rewrite ?orb_false_r, ?orb_true_r, ?orb_assoc. }
+  destruct (d_err d) eqn:E; cbn [map fold_left].
+  - apply (Step DNil); [discriminate|reflexivity].
+  - apply (Step DPartial); [discriminate|reflexivity].
+  - specialize (IH cur (i + 1) c0 Hc Hr). destruct (detect_loop cur r (i + 1)) as [out es]. cbn [fst snd] in *. exact IH.
+Qed.
+
+Lemma detect_schema s0 ds : Forall (fun d => wf_ores (d_res d)) ds ->
+  let '(e, c) := schema_fold s0 (map (fun d => oschema (d_res d)) (filter accepted ds)) in
+  existsb is_conflict (snd (detect s0 ds)) = c /\ r_schema (fst (detect s0 ds)) = if c then [] else e.
+Proof.
+  intro H. unfold schema_fold, detect.
+  assert (W0 : wf_res {| r_attrs := []; r_schema := s0 |}) by (split; [exact I|reflexivity]).
+  pose proof (detect_loop_schema ds _ 0 false W0 H) as L. cbn [r_schema orb] in L.
+  destruct (detect_loop {| r_attrs := []; r_schema := s0 |} ds 0) as [out es]. cbn [fst snd] in L.
+  destruct (fold_left schema_step _ (s0, false)) as [e c]. inversion L as [[L1 L2]]. cbn [snd].
+  split; [reflexivity|]. destruct (existsb is_conflict es); reflexivity.
+Qed.
